@@ -846,3 +846,51 @@ pub fn cells_as_rules_cases() -> Vec<RsCase> {
     }
     out
 }
+
+// ------------------------------------------------------------------ C04: a None that comes from the input
+
+#[derive(serde::Serialize)]
+pub struct NoneInner {
+    pub nothing: Option<String>,
+    pub v: i64,
+}
+/// an input whose absent data is Rust's: `Option::None` fields (top level and nested), a unit field, a `None` list item
+#[derive(serde::Serialize)]
+pub struct NoneFacts {
+    pub nothing: Option<i64>,
+    pub unit: (),
+    pub inner: NoneInner,
+    pub list: Vec<Option<i64>>,
+    pub n: i64,
+}
+pub fn none_facts() -> (NoneFacts, Value) {
+    (
+        NoneFacts { nothing: None, unit: (), inner: NoneInner { nothing: None, v: 1 }, list: vec![None, Some(1)], n: 5 },
+        map(&[("nothing", Value::None), ("unit", Value::None), ("inner", map(&[("nothing", Value::None), ("v", Value::Int(1))])), ("list", Value::Vec(vec![Value::None, Value::Int(1)])), ("n", Value::Int(5))]),
+    )
+}
+
+/// every operator with a None operand that is a field of the input (bare name, `facts.` path, nested field, list item) on
+/// either side, 40 rules per ruleset
+pub fn none_from_input_cases() -> Vec<RsCase> {
+    let (_, facts) = none_facts();
+    let env = EnvSpec { syms: vec![], fns: vec![] };
+    let nones: Vec<Expr> = vec![reff("nothing"), reff("unit"), idxk(reff("inner"), "nothing"), idxk(reff("facts"), "nothing"), idxn(reff("list"), 0)];
+    let others: Vec<Expr> = vec![lit(Value::Int(1)), lit(s("a")), lit(Value::Bool(true)), lit(Value::Float(1.5)), lit(Value::None), reff("n"), lit(Value::Int(0))];
+    let mut rules: Vec<Expr> = vec![];
+    for nr in &nones {
+        for op in UN_OPS {
+            rules.push(mk_un(op, nr.clone()));
+        }
+        rules.push(iff(nr.clone(), lit(Value::Int(1)), lit(Value::Int(2))));
+        rules.push(idxk(nr.clone(), "a"));
+        rules.push(idxn(nr.clone(), 0));
+        for op in BIN_OPS.iter().chain(LAZY_BIN.iter()) {
+            for o in &others {
+                rules.push(mk_bin(op, nr.clone(), o.clone()));
+                rules.push(mk_bin(op, o.clone(), nr.clone()));
+            }
+        }
+    }
+    rules.chunks(40).enumerate().map(|(i, ch)| RsCase { tag: format!("none-from-input {}", i), rules: ch.to_vec(), facts: facts.clone(), env: env.clone(), evals: 1 }).collect()
+}
